@@ -207,6 +207,26 @@ func (s *sym) stmt(st ast.Stmt) {
 	}
 }
 
+// runScenarioList executes fd's body for the given named scenarios (each a full assignment of the predicates).
+func (f *facts) runScenarioList(fd *ast.FuncDecl, names [][]string, scens []map[string]bool, classify func(ast.Expr) string, effect func(ast.Node) string) ([]string, []string) {
+	var rows, unknown []string
+	for i, sc := range scens {
+		s := &sym{f: f, classify: classify, effect: effect, scen: sc}
+		s.block(fd.Body.List)
+		var eff []string
+		for _, e := range s.effects {
+			eff = append(eff, fmt.Sprintf("%q", e))
+		}
+		var nm []string
+		for _, n := range names[i] {
+			nm = append(nm, fmt.Sprintf("%q", n))
+		}
+		rows = append(rows, fmt.Sprintf("([%s], [%s])", strings.Join(nm, ", "), strings.Join(eff, ", ")))
+		unknown = append(unknown, s.unknown...)
+	}
+	return rows, unknown
+}
+
 // runScenarios executes fd's body for every scenario and renders Lean rows `(["p=true", …], ["effect", …])`.
 func (f *facts) runScenarios(fd *ast.FuncDecl, preds []string, classify func(ast.Expr) string, effect func(ast.Node) string) ([]string, []string) {
 	return f.runScenariosFixed(fd, preds, nil, nil, classify, effect)
@@ -902,6 +922,69 @@ func (f *facts) flowTables(conn, tr *ast.File) string {
 		rows, unk := f.runScenariosFixed(fd, []string{"seekFailed", "negotiateFailed", "requestFailed", "waitFailed", "headerFailed", "atWatermark", "setNotEmpty"},
 			map[string]bool{"badConfig": false, "explicitMaxWait": true, "shortRead": false, "firstHeaderFailed": false}, nil, classify, effect)
 		emit("readBatchWithFlow", rows, unk)
+	}
+
+	// (*Batch).close: what is discarded, when the conn is closed, that the lock is released
+	if fd := findFunc(f.files["batch.go"], "Batch", "close"); fd != nil {
+		classify := func(e ast.Expr) string {
+			t := src(f.fset, e)
+			switch {
+			case strings.HasSuffix(t, ".msgs != nil"):
+				return "hasMsgs"
+			case strings.HasSuffix(t, ".decompressed != nil"):
+				return "hasDecompressed"
+			case strings.HasSuffix(t, ".err == nil"):
+				return "batchErrNil"
+			case t == "conn != nil" || strings.HasSuffix(t, "conn != nil"):
+				return "connSet"
+			case t == "lock != nil" || strings.HasSuffix(t, "lock != nil"):
+				return "hasLock"
+			case t == "err != nil":
+				return "errLeft"
+			}
+			if c, ok := e.(*ast.CallExpr); ok {
+				switch selPath(c.Fun) {
+				case "errors.As":
+					return "isKafkaError"
+				case "errors.Is":
+					if len(c.Args) == 2 && strings.HasSuffix(src(f.fset, c.Args[1]), "ErrShortBuffer") {
+						return "isShortBuffer"
+					}
+					if len(c.Args) == 2 && strings.HasSuffix(src(f.fset, c.Args[1]), "io.EOF") {
+						return "isEOF"
+					}
+				}
+			}
+			return ""
+		}
+		effect := func(n ast.Node) string {
+			c, ok := n.(*ast.CallExpr)
+			if !ok {
+				return ""
+			}
+			p := selPath(c.Fun)
+			switch {
+			case strings.HasSuffix(p, ".msgs.discard"):
+				return "discard"
+			case strings.HasSuffix(p, "onn.Close"):
+				return "closeConn"
+			case strings.HasSuffix(p, "lock.Unlock"):
+				return "unlock"
+			}
+			return ""
+		}
+		var names [][]string
+		var scens []map[string]bool
+		for _, hm := range []bool{true, false} {
+			for _, cls := range []string{"nil", "eof", "kafka", "short", "other"} {
+				names = append(names, []string{fmt.Sprintf("hasMsgs=%v", hm), "err=" + cls})
+				scens = append(scens, map[string]bool{"hasMsgs": hm, "hasDecompressed": false, "connSet": true, "hasLock": true,
+					"batchErrNil": cls == "nil", "isEOF": cls == "eof", "errLeft": cls == "kafka" || cls == "short" || cls == "other",
+					"isKafkaError": cls == "kafka", "isShortBuffer": cls == "short"})
+			}
+		}
+		rows, unk := f.runScenarioList(fd, names, scens, classify, effect)
+		emit("batchCloseFlow", rows, unk)
 	}
 
 	// (*Conn).saslAuthenticate: raw versus framed, and every way the un-framed exchange can fail
